@@ -13,7 +13,7 @@ import numpy as np
 
 
 def run_item(pid, item):
-    from symx import backend, world
+    from symx import backend, explore, world
 
     mod = importlib.import_module(f"harness.{pid}")
     B = backend.RealBackend(item.get("inputs") or {}, item.get("choices") or [])
@@ -22,6 +22,8 @@ def run_item(pid, item):
     res = {"reproduced": False, "failures": [], "exception": None}
     try:
         mod.scenario(B, item["case"])
+    except explore.Cut:
+        pass  # the scenario ends this path deliberately; obligations recorded before the cut stand
     except world.WFError as e:
         res["exception"] = f"WFError: {e}"
         B.failures.append({"label": "well-formedness", "kind": "wf", "error": str(e)})
